@@ -13,3 +13,4 @@ pub mod d1;
 pub mod d2;
 pub mod d3;
 pub mod g4;
+pub mod a2;
